@@ -142,8 +142,13 @@ def handle (j : Json) : Except String Json := do
                 if ok then curVersion := curVersion.set uri newv
           | none => pure ()
       | none => pure ()
-    steps := steps.push (Json.mkObj [("op", "delegate-and-sign"), ("res", if aborted then "error" else "ok")])
-    finalOk := !aborted
+    -- `sign`: the accepted roles must not use a name twice
+    let acceptedNames := (List.range roles.length).filterMap fun ri => match roles[ri]? with
+      | some r => if accepted.getD ri false then some r.name else none
+      | none => none
+    let distinct := namesDistinct acceptedNames
+    steps := steps.push (Json.mkObj [("op", "delegate-and-sign"), ("res", if aborted then "error" else if !distinct then "duplicate-role" else "ok")])
+    finalOk := !aborted && distinct
   -- what a client must see
   let rec listedBy (fuel : Nat) (ri : Nat) : Bool :=
     match fuel with
